@@ -22,6 +22,7 @@ func init() {
 			{"C04.funnel", "all index stores decode through IndexFromReader and encode through Index.WriteTo; files are truncated", 12, c04Funnel},
 			{"C04.codec-agree", "index header/table written and read as the same field sequence; sizes and tail marker agree", 6, c04Codec},
 			{"C04.rejections", "IndexFromReader rejects a wrong digest flag and any chunk larger than the maximum", 3, c04Rejections},
+			{"C04.digest-flag", "an index that is written records the digest in use, so that the same configuration reads it back (shared with C02/C05)", 3, c05DigestFlag},
 			{"C04.max-size-boundary", "a chunk is rejected iff its size exceeds the declared maximum (partition point of the comparison)", 1, func(c *Ctx) {
 				fn := c.mustFn("IndexFromReader")
 				if fn == nil {
